@@ -197,3 +197,8 @@ def run(tier):
     v.coverage = cov
     v.assumptions = ["small caps through the override hook exercise the staged logic; the default caps are exercised in the thorough tier only (release binary)"]
     return v.finish()
+
+
+def replay(path):
+    import replaytool
+    return replaytool.replay("C18", path)
